@@ -24,6 +24,7 @@ TFollowerRestart == Ev("FollowerRestart") /\ FollowerRestart
 TFollowerLoseLog == Ev("FollowerLoseLog") /\ FollowerLoseLog
 TLeaderRestart == Ev("LeaderRestart") /\ LeaderRestart
 TLeaderLoseTail == Ev("LeaderLoseTail") /\ LeaderLoseTail(Line.k)
+TLeaderLoseGroup == Ev("LeaderLoseGroup") /\ LeaderLoseGroup(Line.k)
 TLeaderGC == Ev("LeaderGC") /\ LeaderGC
 
 LiveOK(live, log, q, a) ==
@@ -39,7 +40,7 @@ TProj ==
   /\ UNCHANGED vars
 
 TraceNext == TReset \/ TAppend \/ THandshake \/ TRound \/ TFollowerRestart \/ TFollowerLoseLog
-             \/ TLeaderRestart \/ TLeaderLoseTail \/ TLeaderGC \/ TProj
+             \/ TLeaderRestart \/ TLeaderLoseTail \/ TLeaderLoseGroup \/ TLeaderGC \/ TProj
 TraceSpec == TraceInit /\ [][TraceNext]_tvars
 
 IsTraceReset == l <= Len(Trace) /\ Trace[l].ev = "Reset"
